@@ -29,6 +29,7 @@ OBLIGATIONS = [
     "Grog.C04.stuck_all_terminal",
     "Grog.C04.terminates",
     "Grog.C04.run_length_bounded",
+    "Grog.C04.can_always_finish",
     "Grog.C04.completions_cover",
     "Grog.C04.walk_return_enabled",
     "Grog.C04.errchan_no_deadlock",
@@ -86,7 +87,7 @@ def run(ctx):
     cases.append(dict(W.make_case(rng, family=(3, [[0, 1], [1, 2]], "nothing-selected"), workers=0, fail_fast=False), fail=[], unsel=[0, 1, 2]))
     cases += small_exhaustive(rng)
     cases += small_exhaustive(rng)      # the same inputs again: other schedules
-    nrand = 300 if quick else 4000
+    nrand = 300 if quick else 12000
     for i in range(nrand):
         cases.append(W.make_case(rng, maxn=400 if i % 6 == 0 else 50, workers=0, cancel=(i % 5 == 0)))
     ctx.coverage["rule"] = (f"{len(cases)} cases: zero-latency fan-out/bipartite up to {max(big)+1} nodes, all failing subsets x fail-fast on two 4-node graphs, "
@@ -161,9 +162,10 @@ def check_intest(ctx, cases, res, info, mode):
         # the binary died: the first case without a result line is the one that crashed
         cid = next((i for i in range(len(cases)) if i not in res), None)
         c = cases[cid] if cid is not None else None
-        ctx.violation("Go runtime fatal error while walking (" + info["fatal"].splitlines()[0] + ")",
+        first = info["fatal"].splitlines()[0]
+        ctx.violation("Go runtime fatal error while walking (" + first + ")",
                       {"kind": "oracle", "oracle": f"no runtime crash ({mode})", "case": strip(c) if c else None, "output": info["fatal"]},
-                      signature="walker-runtime-crash")
+                      signature="walker-runtime-crash:" + first.replace("fatal error:", "").strip().replace(" ", "-"))
     for i, c in enumerate(cases):
         r = res.get(i)
         if r is None:
@@ -182,10 +184,16 @@ def check_intest(ctx, cases, res, info, mode):
         cid = min(info["races"]) if info["races"] else None
         ctx.violation("data race reported by the race detector while walking",
                       {"kind": "oracle", "oracle": "go test -race reports nothing", "case": strip(cases[cid]) if cid is not None else None,
-                       "report": info.get("race_report", "")}, signature="walker-data-race")
+                       "report": info.get("race_report", "")}, signature="walker-data-race:" + info.get("race_where", "?"))
 
 
 def replay(ctx, rep):
+    if rep.get("request", {}).get("op") == "restore.load":
+        import os, shutil
+        rq = dict(rep["request"], dir=os.path.join(ctx.scratch("replay-restore"), "1"))
+        print("impl :", ctx.impl([rq])[0])
+        print("model:", ctx.model([{"op": "errchan.outcome", "nOk": len(rq["files"]) - len(rq["missing"]), "nFail": len(rq["missing"]), "cap": 1, "drop": True}])[0])
+        return 0
     c = rep.get("case")
     if not c or isinstance(c.get("edges"), str):
         print("nothing to replay directly (see 'kind' / regenerate the large family)")
